@@ -37,9 +37,9 @@ Proof. intros. unfold view_options_exit. split_saved sv; congr_tac. Qed.
 Lemma timeit_exit_congr : forall a sv s t,
   seq_at lclass 0 s t -> seq_at lclass 0 (timeit_exit a sv s) (timeit_exit a sv t).
 Proof. intros. unfold timeit_exit. split_saved sv; congr_tac. Qed.
-Lemma contextual_exit_congr : forall sv s t,
-  seq_at lclass 0 s t -> seq_at lclass 0 (contextual_exit sv s) (contextual_exit sv t).
-Proof. intros. unfold contextual_exit. split_saved sv; congr_tac. Qed.
+Lemma contextual_exit_congr : forall a sv s t,
+  seq_at lclass 0 s t -> seq_at lclass 0 (contextual_scope_exit a sv s) (contextual_scope_exit a sv t).
+Proof. intros. unfold contextual_scope_exit. split_saved sv; congr_tac. Qed.
 
 Lemma exit_congr : forall c a sv s t, obs_eq s t -> obs_eq (cm_exit c a sv s) (cm_exit c a sv t).
 Proof.
@@ -144,16 +144,51 @@ Proof.
   apply tl_pop_push. reflexivity.
 Qed.
 
-Lemma contextual_restores : forall a s s1 sv,
-  contextual_enter a s = Some (s1, sv) -> seq_at lclass 0 (contextual_exit sv s1) s.
+(* the generated cascade loop computes contextual_merge *)
+Lemma contextual_loop_step : forall (p : dict) (k : Z) (v : atom),
+  (let p_old_v := py_dict_get (VD p) (VA (AInt k)) v_none in
+   if truthy p_old_v && truthy (py_attr_cascade p_old_v)
+   then py_setitem (VD p) (VA (AInt k)) p_old_v
+   else py_setitem (VD p) (VA (AInt k)) (VA v))
+  = VD (dict_set k (match dict_get k p with Some old => if cascade_of old then old else v | None => v end) p).
 Proof.
-  unfold contextual_enter, contextual_exit. intros a s s1 sv H.
-  destruct (tl_get k_contextual v_empty_dict s) as [x|p|x] eqn:E; try discriminate.
-  destruct a as [x|vs|x]; inversion H; subst; clear H.
-  unfold tl_set. rewrite st_set_set. unfold tl_get in E.
+  intros. cbv zeta. unfold py_dict_get. destruct (dict_get k p) as [[| b | z | z c t]|]; simpl; try reflexivity.
+  - destruct b; reflexivity.
+  - destruct (negb (z =? 0)%Z); reflexivity.
+  - destruct c; reflexivity.
+Qed.
+
+Lemma contextual_scope_enter_dict : forall vs l p, tl_get k_contextual v_empty_dict l = VD p ->
+  contextual_scope_enter (VD vs) l =
+  Some (tl_set k_contextual (VD (contextual_merge p vs)) l, [VD p; VD (contextual_merge p vs)]).
+Proof.
+  intros vs l p H. unfold contextual_scope_enter. rewrite H. unfold py_copy, py_for_items.
+  match goal with |- context [fold_left ?f vs (VD p)] =>
+    assert (F : forall vs p, fold_left f vs (VD p) = VD (contextual_merge p vs)) end.
+  { clear. unfold contextual_merge. induction vs as [|[k v] r IH]; intros p; simpl; [reflexivity|].
+    rewrite <- IH. f_equal. apply contextual_loop_step. }
+  rewrite F. reflexivity.
+Qed.
+
+Lemma contextual_scope_enter_other : forall a l, (forall vs, a <> VD vs) ->
+  contextual_scope_enter a l =
+  Some (tl_set k_contextual (tl_get k_contextual v_empty_dict l) l,
+        [tl_get k_contextual v_empty_dict l; tl_get k_contextual v_empty_dict l]).
+Proof.
+  intros a l N. unfold contextual_scope_enter, py_copy, py_for_items. destruct a as [x|vs|x]; try reflexivity.
+  exfalso. eapply N. reflexivity.
+Qed.
+
+(* whatever the loop computes, leaving writes back the saved map *)
+Lemma contextual_restores : forall a s s1 sv,
+  contextual_scope_enter a s = Some (s1, sv) -> seq_at lclass 0 (contextual_scope_exit a sv s1) s.
+Proof.
+  unfold contextual_scope_enter, contextual_scope_exit. intros a s s1 sv H.
+  apply some_pair_inj in H. destruct H as [<- <-].
+  unfold tl_set. rewrite st_set_set. unfold tl_get.
   destruct (st_get k_contextual s) eqn:G.
-  - subst. rewrite <- G. rewrite st_set_get_id. apply seq_at_refl.
-  - unfold v_empty_dict in E. inversion E; subst. apply nrm_set_equiv. rewrite G. reflexivity.
+  - rewrite <- G. rewrite st_set_get_id. apply seq_at_refl.
+  - apply nrm_set_equiv. rewrite G. reflexivity.
 Qed.
 
 Lemma detour_restores : forall a s s1 sv,
